@@ -401,7 +401,20 @@ pub fn create_error_object(
                 "ReferenceError" => interp.reference_error_prototype.clone(),
                 "RangeError" => interp.range_error_prototype.clone(),
                 "SyntaxError" => interp.syntax_error_prototype.clone(),
-                _ => interp.error_prototype.clone(),
+                // Other kinds (URIError, EvalError): the prototype of the global constructor
+                other => {
+                    let ctor_key = PropertyKey::String(interp.intern(other));
+                    let proto_key = PropertyKey::String(interp.intern("prototype"));
+                    let ctor = interp.global.borrow().get_property(&ctor_key);
+                    match ctor {
+                        Some(JsValue::Object(ctor)) => match ctor.borrow().get_property(&proto_key)
+                        {
+                            Some(JsValue::Object(proto)) => proto,
+                            _ => interp.error_prototype.clone(),
+                        },
+                        _ => interp.error_prototype.clone(),
+                    }
+                }
             };
             (proto, kind.as_str(), message.clone())
         }
